@@ -13,8 +13,9 @@ Record signer_obs := {
   s_addr : bytes;                 (* GetAddress() *)
   s_tr : option bytes;            (* GetEthAddressFromPeerID of the identity built, as libp2p.New builds it, from the key
                                      this signer hands out (PadKeyTo32Bytes, unmarshal, peer id); None: no identity *)
-  s_rec : option bytes;           (* address pkg/signer Verify recovers from SignHash(Keccak256(role ++ token)),
-                                     the handshake request signature *)
+  s_rec : option bytes;           (* address pkg/signer Verify recovers from (Sig, PeerType ++ Token) of the handshake
+                                     request the node actually SENT (captured on the wire of the exchange below) *)
+  s_rec_raw : option bytes;       (* the same from SignHash(Keccak256(role ++ configured secret)), what createSignature signs *)
   s_hs : option bytes;            (* address a real peer (handshake.Service.Handle: verifyReq with its address-binding
                                      check against s_tr's peer id) enrolled this node under; None: refused *)
   s_bid : option bytes;           (* preconfsigner VerifyBid (ConstructSignedBid ...) *)
@@ -66,7 +67,7 @@ Definition ref_addr (c : case) : bytes := eth_addr keccak256 (qx c, qy c).
 Definition binding_priv (c : case) (s : signer_obs) : bool := s_priv s =? d c.
 Definition binding_addr (r : bytes) (s : signer_obs) : bool := bytes_eqb (s_addr s) r.
 Definition binding_recover (r : bytes) (s : signer_obs) : bool :=
-  opt_bytes_eqb (s_rec s) (Some r) && opt_bytes_eqb (s_hs s) (Some r) &&
+  opt_bytes_eqb (s_rec s) (Some r) && opt_bytes_eqb (s_rec_raw s) (Some r) && opt_bytes_eqb (s_hs s) (Some r) &&
   opt_bytes_eqb (s_bid s) (Some r) && opt_bytes_eqb (s_commit s) (Some r).
 
 Definition full_signer_obs (c : case) : option signer_obs := find (fun s => s_kind s =? full_signer c) (signers c).
@@ -98,6 +99,7 @@ Definition signer_cannot_start (s : signer_obs) : bool := match s_tr s with None
 Definition signer_differs (s : signer_obs) : bool :=
   negb (opt_bytes_eqb (s_tr s) (Some (s_addr s))) ||
   negb (opt_bytes_eqb (s_rec s) (Some (s_addr s))) ||
+  negb (opt_bytes_eqb (s_rec_raw s) (Some (s_addr s))) ||
   negb (opt_bytes_eqb (s_hs s) (Some (s_addr s))) ||
   negb (opt_bytes_eqb (s_bid s) (Some (s_addr s))) ||
   negb (opt_bytes_eqb (s_commit s) (Some (s_addr s))).
